@@ -370,9 +370,12 @@ impl Job {
 
     pub fn set_waiting_state(&mut self, task_id: JobTaskId) {
         let task = self.tasks.get_mut(&task_id).unwrap();
-        assert!(matches!(task.state, JobTaskState::Running { .. }));
-        task.state = JobTaskState::Waiting;
-        self.counters.n_running_tasks -= 1;
+        // The scheduler treats a multi-node task as running from the moment it reserves the
+        // workers, so its root may be lost before the start of the task was reported
+        if matches!(task.state, JobTaskState::Running { .. }) {
+            task.state = JobTaskState::Waiting;
+            self.counters.n_running_tasks -= 1;
+        }
     }
 
     pub fn set_failed_state(
